@@ -77,7 +77,34 @@ def make_func(fvals, kind, calls):
             return float(v) if np.ndim(x) == 0 else np.array([v])
         return table[np.floor(x["x"]).astype(int)] * (1.0 + 2.0 ** -22) + 2.0 ** -30
 
-    return {"vec": vec, "scalar": scalar, "arr1": arr1, "approx": approx}[kind]
+    def special(v):
+        # non-finite values a likelihood may legitimately return: zero likelihood, overflow, undefined
+        r = np.asarray(v, dtype=float).copy()
+        k = np.floor(r).astype(int) % 7
+        r = np.where(k == 0, -np.inf, r)
+        r = np.where(k == 1, np.inf, r)
+        r = np.where(k == 2, np.nan, r)
+        return r
+
+    def vecinf(x):
+        calls.append(int(np.size(x)))
+        return special(table[np.floor(x["x"]).astype(int)])
+
+    def scalarinf(x):
+        calls.append(int(np.size(x)))
+        if np.size(x) != 1:
+            raise TypeError("not vectorised")
+        return float(special(table[int(np.floor(np.atleast_1d(x["x"])[0]))]))
+
+    return {"vec": vec, "scalar": scalar, "arr1": arr1, "approx": approx, "vecinf": vecinf, "scalarinf": scalarinf}[kind]
+
+
+def special_ref(vals):
+    out = []
+    for v in vals:
+        k = int(v) % 7
+        out.append(-np.inf if k == 0 else np.inf if k == 1 else np.nan if k == 2 else float(v))
+    return out
 
 
 class TModel(Model):
@@ -168,7 +195,10 @@ def run_case(c):
         if c.get("unit") or c["which"] == "prior_uh":
             x = m.to_unit_hypercube(x)
         # settle the vectorisation probe before counting
-        _ = m.vectorised_likelihood, m.vectorised_prior, m.vectorised_prior_unit_hypercube
+        try:
+            _ = m.vectorised_likelihood, m.vectorised_prior, m.vectorised_prior_unit_hypercube
+        except Exception as e:
+            return {"error": "probe:" + err_name(e)}
         before = m.likelihood_evaluations
         ncalls0 = len(calls)
         try:
@@ -185,6 +215,10 @@ def run_case(c):
                 out = m.batch_evaluate_log_prior(x, unit_hypercube=bool(c.get("unit")))
                 ref = [float(c["fvals"][i] % 7) for i in range(c["n"])]
             out = [float(v) for v in np.asarray(out).tolist()]
+            kind_used = {"likelihood": c["fkind"], "single": c["fkind"], "prior": c.get("pkind") or c["fkind"],
+                         "prior_uh": c.get("ukind") or c["fkind"]}[c["which"]]
+            if kind_used in ("vecinf", "scalarinf"):
+                ref = special_ref(ref)
             res = {"out": out, "ref": ref, "delta": int(m.likelihood_evaluations - before),
                    "calls": calls[ncalls0:], "vectorised": bool(m.allow_vectorised and m.vectorised_likelihood)}
             if c.get("reuse") and c["n"] >= 2 and c["which"] != "single":
